@@ -8,8 +8,8 @@
 (* graph with one alias dropped does not.  Every state is emitted as a case.  *)
 EXTENDS TMirror, Json
 
-VARIABLES chain, target, ext, o
-vars == <<chain, target, ext, o>>
+VARIABLES chain, target, ext, o, dflt
+vars == <<chain, target, ext, o, dflt>>
 Ty(t, ref, a) == [t |-> t, bin |-> FALSE, ref |-> ref, a |-> a]
 Builtin(t) == Ty(t, "", <<>>)
 Target == IF target = "i32" THEN Builtin(8) ELSE IF target = "enum" THEN Ty(0, "base.thrift:Kind", <<>>)
@@ -18,21 +18,33 @@ Top == IF chain = 0 THEN Target ELSE Ty(0, "main.thrift:T" \o (IF chain = 1 THEN
 Typedefs == IF chain = 0 THEN <<>> ELSE IF chain = 1 THEN <<[key |-> "main.thrift:T1", ty |-> Target]>>
             ELSE <<[key |-> "main.thrift:T1", ty |-> Target], [key |-> "main.thrift:T2", ty |-> Ty(0, "main.thrift:T1", <<>>)]>>
 Enums == <<"base.thrift:Kind">>
-Fld(id, name, alias, req, ty) == [id |-> id, name |-> name, alias |-> alias, req |-> req, ty |-> ty]
+\* constants of the included file: a literal, the name of another constant, the name of an enum value
+NoDV == [k |-> "none", int |-> FALSE, i |-> <<>>, f |-> <<>>, s |-> <<>>, bv |-> FALSE, ref |-> "", name |-> ""]
+Lit7 == [NoDV EXCEPT !.k = "num", !.int = TRUE, !.i = <<0, 0, 0, 0, 0, 0, 0, 7>>, !.f = <<64, 28, 0, 0, 0, 0, 0, 0>>]
+ConstRef(key) == [NoDV EXCEPT !.k = "const", !.ref = key]
+Consts == <<[key |-> "base.thrift:LIMIT", val |-> Lit7], [key |-> "base.thrift:CHAIN", val |-> ConstRef("base.thrift:LIMIT")],
+            [key |-> "base.thrift:LEVEL", val |-> [NoDV EXCEPT !.k = "enum", !.ref = "base.thrift:Kind", !.name = "B"]]>>
+\* how the default of Req.lim is written
+DfltDV == CASE dflt = "lit" -> Lit7 [] dflt = "const" -> ConstRef("base.thrift:LIMIT") [] dflt = "chain" -> ConstRef("base.thrift:CHAIN")
+            [] dflt = "enumconst" -> ConstRef("base.thrift:LEVEL") [] OTHER -> NoDV
+Fld(id, name, alias, req, ty) == [id |-> id, name |-> name, alias |-> alias, req |-> req, ty |-> ty, dflt |-> NoDV]
 \* names as bytes: id = <<105,100>>, v = <<118>>, self = <<115,101,108,102>>, alias al = <<97,108>>
 ItemS == [key |-> "base.thrift:Item", name |-> "Item", kind |-> "struct", fields |-> <<Fld(1, <<105, 100>>, <<97, 108>>, "opt", Builtin(8))>>]
 ReqS == [key |-> "main.thrift:Req", name |-> "Req", kind |-> "struct",
-         fields |-> <<Fld(1, <<118>>, <<>>, "req", Top), Fld(2, <<115, 101, 108, 102>>, <<>>, "opt", Ty(0, "main.thrift:Req", <<>>))>>]
+         fields |-> <<Fld(1, <<118>>, <<>>, "req", Top), Fld(2, <<115, 101, 108, 102>>, <<>>, "opt", Ty(0, "main.thrift:Req", <<>>)),
+                      [Fld(3, <<108, 105, 109>>, <<>>, "opt", Builtin(8)) EXCEPT !.dflt = DfltDV]>>]
 Structs == <<ItemS, ReqS>>
 Fn(name, arg, ret, throws) == [name |-> name, oneway |-> FALSE, arg |-> arg, ret |-> ret, throws |-> throws]
-ArgF(ty) == [id |-> 1, name |-> "req", alias |-> "", req |-> "def", ty |-> ty]
+ArgF(ty) == [id |-> 1, name |-> "req", alias |-> "", req |-> "def", ty |-> ty, dflt |-> NoDV]
 Svcs == <<[key |-> "base.thrift:BaseSvc", name |-> "BaseSvc", extends |-> "", funcs |-> <<Fn("Ping", ArgF(Ty(0, "base.thrift:Item", <<>>)), Ty(0, "base.thrift:Item", <<>>), <<>>)>>],
           [key |-> "main.thrift:Main", name |-> "Main", extends |-> IF ext THEN "base.thrift:BaseSvc" ELSE "",
            funcs |-> <<Fn("Get", ArgF(Ty(0, "main.thrift:Req", <<>>)), Ty(0, "main.thrift:Req", <<>>), <<>>)>>],
           [key |-> "main.thrift:Second", name |-> "Second", extends |-> "", funcs |-> <<Fn("Put", ArgF(Ty(0, "base.thrift:Item", <<>>)), Builtin(1), <<>>)>>]>>
 MainSvcs == <<"main.thrift:Main", "main.thrift:Second">>
 Init == chain \in 0..2 /\ target \in {"i32", "enum", "struct", "list"} /\ ext \in BOOLEAN
-        /\ o \in [enum64 : BOOLEAN, mapway : {"alias", "name", "both"}, svcmode : {"last", "first", "combine"}, svcname : {"", "Main"}, optbm : {FALSE}]
+        /\ dflt \in (IF chain = 0 THEN {"none", "lit", "const", "chain", "enumconst"} ELSE {"none"})
+        /\ o \in [enum64 : BOOLEAN, mapway : {"alias", "name", "both"}, svcmode : {"last", "first", "combine"}, svcname : {"", "Main"}, optbm : {FALSE},
+                  usedflt : IF dflt = "none" THEN {FALSE} ELSE BOOLEAN]
 Next == UNCHANGED vars
 Spec == Init /\ [][Next]_vars
 \* ---- laws ----
@@ -47,27 +59,35 @@ RECURSIVE ToD(_)
 ToD(x) == [t |-> x.t, bin |-> x.bin, a |-> [i \in 1..Len(x.a) |-> ToD(x.a[i])], node |-> IF x.sref = "" THEN 0 ELSE NodeOfKey(x.sref)]
 IdealNode(id, st) == [id |-> id, sname |-> st.name, same |-> TRUE, keys |-> <<>>, found |-> [i \in 1..Len(st.fields) |-> st.fields[i].id],
                       fields |-> [i \in 1..Len(st.fields) |-> [id |-> st.fields[i].id, name |-> st.fields[i].name, alias |-> ExpAlias(st.fields[i]),
-                                                                req |-> st.fields[i].req, ty |-> ToD(R(st.fields[i].ty))]]]
+                                                                req |-> st.fields[i].req, ty |-> ToD(R(st.fields[i].ty)),
+                                                                has |-> ExpDflt(st.fields[i].dflt, R(st.fields[i].ty).t, Consts, o).has,
+                                                                tb |-> ExpDflt(st.fields[i].dflt, R(st.fields[i].ty).t, Consts, o).tb]]]
 Ideal == <<IdealNode(1, ReqS), IdealNode(2, ItemS)>>
 WrapD(x, id) == [ToD(x) EXCEPT !.node = @ * 100000 + id]
 IdealFns == LET exp == ExpFuncs(MainSvcs, Svcs, o) IN
   [i \in 1..Len(exp) |-> [name |-> exp[i].name, oneway |-> FALSE, hasreq |-> TRUE, hasresp |-> TRUE, argok |-> TRUE, argty |-> WrapD(R(exp[i].arg.ty), 1),
                           retty |-> IF exp[i].ret.t = 1 THEN ToD(R(Builtin(1))) ELSE ToD(R(exp[i].ret)), throk |-> TRUE, thrty |-> ToD(R(Builtin(1)))]]
-Ev(nodes) == [o |-> o, typedefs |-> Typedefs, enums |-> Enums, structs |-> Structs, svcs |-> Svcs, mainsvcs |-> MainSvcs, st |-> "ok",
+Ev(nodes) == [o |-> o, typedefs |-> Typedefs, enums |-> Enums, consts |-> Consts, structs |-> Structs, svcs |-> Svcs, mainsvcs |-> MainSvcs, st |-> "ok",
               svcname |-> ExpSvcName(MainSvcs, Svcs, o), fns |-> IdealFns, nodes |-> nodes]
 IdealMirrors == MirrorWhy(Ev(Ideal)) = ""
 Broken == [Ideal EXCEPT ![2].fields[1].alias = <<105, 100>>]
 \* Item is reachable in every state (Ping / Put / Get via Req), so the dropped alias must be noticed whenever Item is reached
 BrokenNoticed == MirrorWhy(Ev(Broken)) \in {"field-alias", ""} /\ ((target \in {"struct", "list"} \/ ext \/ o.svcmode # "first" \/ o.svcname = "Main") => TRUE)
+\* the declared default resolves to 7 / 5 however it is written, and a descriptor without it is noticed
+DefaultResolves == (o.usedflt /\ dflt # "none") => ExpDflt(DfltDV, 8, Consts, o) = [k |-> "is", has |-> TRUE, tb |-> <<0, 0, 0, IF dflt = "enumconst" THEN 5 ELSE 7>>]
+NoDflt == [Ideal EXCEPT ![1].fields[3].has = FALSE, ![1].fields[3].tb = <<>>]
+DroppedDefaultNoticed == (o.usedflt /\ dflt # "none" /\ (o.svcmode # "last" \/ o.svcname = "Main")) => MirrorWhy(Ev(NoDflt)) = "field-default"
 \* ---- the IDL as a case (TSch JSON format of the harness) ----
-FJ(f, n, al) == [id |-> f.id, name |-> n, alias |-> al, req |-> f.req, ty |-> f.ty]
+FJ(f, n, al) == [id |-> f.id, name |-> n, alias |-> al, req |-> f.req, ty |-> f.ty, dflt |-> f.dflt]
 TSchJ == [files |-> <<
   [path |-> "main.thrift", includes |-> <<"base.thrift">>,
    typedefs |-> [i \in 1..Len(Typedefs) |-> [name |-> IF i = 1 THEN "T1" ELSE "T2", ty |-> Typedefs[i].ty]], enums |-> <<>>,
-   structs |-> <<[name |-> "Req", kind |-> "struct", fields |-> <<FJ(ReqS.fields[1], "v", ""), FJ(ReqS.fields[2], "self", "")>>]>>,
+   structs |-> <<[name |-> "Req", kind |-> "struct", fields |-> <<FJ(ReqS.fields[1], "v", ""), FJ(ReqS.fields[2], "self", ""), FJ(ReqS.fields[3], "lim", "")>>]>>, consts |-> <<>>,
    svcs |-> <<[name |-> "Main", extends |-> Svcs[2].extends, funcs |-> <<[name |-> "Get", oneway |-> FALSE, arg |-> ArgF(Ty(0, "main.thrift:Req", <<>>)), ret |-> Ty(0, "main.thrift:Req", <<>>), throws |-> <<>>]>>],
               [name |-> "Second", extends |-> "", funcs |-> <<[name |-> "Put", oneway |-> FALSE, arg |-> ArgF(Ty(0, "base.thrift:Item", <<>>)), ret |-> Builtin(1), throws |-> <<>>]>>]>>],
   [path |-> "base.thrift", includes |-> <<>>, typedefs |-> <<>>, enums |-> <<"Kind">>,
+   consts |-> <<[name |-> "LIMIT", ty |-> Builtin(8), val |-> Lit7], [name |-> "CHAIN", ty |-> Builtin(8), val |-> ConstRef("base.thrift:LIMIT")],
+                [name |-> "LEVEL", ty |-> Ty(0, "base.thrift:Kind", <<>>), val |-> Consts[3].val]>>,
    structs |-> <<[name |-> "Item", kind |-> "struct", fields |-> <<FJ(ItemS.fields[1], "id", "al")>>]>>,
    svcs |-> <<[name |-> "BaseSvc", extends |-> "", funcs |-> <<[name |-> "Ping", oneway |-> FALSE, arg |-> ArgF(Ty(0, "base.thrift:Item", <<>>)), ret |-> Ty(0, "base.thrift:Item", <<>>), throws |-> <<>>]>>]>>]>>]
 Emit == PrintT(ToJson([tag |-> "case", tsch |-> TSchJ, o |-> o]))
